@@ -260,6 +260,10 @@ func (ts *timeSeries) Latest(level, num int) Observable {
 	}
 
 	ts.mergePendingUpdates()
+	// The levels may have been advanced past the pending bucket: keep
+	// pendingTime in step so that a later, older observation is merged
+	// into the bucket of its own time instead of the newest one.
+	ts.pendingTime = ts.levels[0].end
 
 	result := ts.provider()
 	l := ts.levels[level]
@@ -296,6 +300,7 @@ func (ts *timeSeries) LatestBuckets(level, num int) []Observable {
 	}
 
 	ts.mergePendingUpdates()
+	ts.pendingTime = ts.levels[0].end // see Latest
 
 	l := ts.levels[level]
 	index := l.newest
